@@ -49,6 +49,8 @@ type Facts struct {
 	Funcs      map[string]FuncFact    `json:"funcs"`
 	Shard      map[string][][2]string `json:"shard_steps,omitempty"` // C17, see shard.go
 	CloseSites []CloseSite            `json:"closeSites"`
+	// Mgr: step fingerprints of the poller-pool functions (C18), see mgrOps
+	Mgr map[string][]string `json:"mgr,omitempty"`
 }
 
 // closeKind classifies a call expression; "" = not a descriptor-closing call.
@@ -107,6 +109,102 @@ func closeKind(info *types.Info, x *ast.CallExpr) string {
 		}
 	}
 	return ""
+}
+
+// functions whose step fingerprint is emitted into Gen/Manager.lean (C18)
+var mgrFuncs = []string{"newManager", "manager.SetNumLoops", "manager.SetLoadBalance", "manager.Close", "manager.Run",
+	"manager.Reset", "manager.Pick", "roundRobinLB.Pick", "roundRobinLB.Rebalance", "randomLB.Pick", "randomLB.Rebalance",
+	"newLoadbalance"}
+
+// mgrOps: the ordered list of steps of a poller-pool function that the interleaving model of C18 has a
+// program counter for: sync/atomic calls (with operands), go statements, defer statements, loops, calls of
+// the pool's own methods / the poller interface / openPoll / Gosched / Intn, plain stores to fields of the
+// manager and the balancers, index reads of a `polls` field, integer remainder, returns.
+func mgrOps(fset *token.FileSet, info *types.Info, body *ast.BlockStmt) []string {
+	var ops []string
+	isField := func(e ast.Expr) (string, bool) {
+		if sel, ok := e.(*ast.SelectorExpr); ok {
+			if s, ok := info.Selections[sel]; ok && s.Kind() == types.FieldVal {
+				return exprStr(fset, sel), true
+			}
+		}
+		return "", false
+	}
+	ast.Inspect(body, func(n ast.Node) bool {
+		switch x := n.(type) {
+		case *ast.GoStmt:
+			ops = append(ops, "go "+exprStr(fset, x.Call.Fun))
+			return false
+		case *ast.DeferStmt:
+			ops = append(ops, "defer")
+		case *ast.ForStmt:
+			ops = append(ops, "for")
+		case *ast.RangeStmt:
+			ops = append(ops, "range "+exprStr(fset, x.X))
+		case *ast.BranchStmt:
+			if x.Tok == token.GOTO {
+				ops = append(ops, "goto "+x.Label.Name)
+			}
+		case *ast.ReturnStmt:
+			ops = append(ops, "return")
+		case *ast.AssignStmt:
+			for _, l := range x.Lhs {
+				if f, ok := isField(l); ok {
+					ops = append(ops, "store "+f)
+				}
+			}
+		case *ast.IndexExpr:
+			if f, ok := isField(x.X); ok {
+				ops = append(ops, "index "+f)
+			}
+		case *ast.BinaryExpr:
+			if x.Op == token.REM {
+				ops = append(ops, "rem "+exprStr(fset, x.Y))
+			}
+		case *ast.CallExpr:
+			if sel, ok := x.Fun.(*ast.SelectorExpr); ok {
+				if id, ok := sel.X.(*ast.Ident); ok {
+					if pn, ok := info.Uses[id].(*types.PkgName); ok {
+						switch pn.Imported().Path() {
+						case "sync/atomic":
+							args := make([]string, len(x.Args))
+							for i, a := range x.Args {
+								args[i] = exprStr(fset, a)
+							}
+							ops = append(ops, "atomic."+sel.Sel.Name+"("+strings.Join(args, ",")+")")
+						case "runtime", "github.com/bytedance/gopkg/lang/fastrand":
+							args := make([]string, len(x.Args))
+							for i, a := range x.Args {
+								args[i] = exprStr(fset, a)
+							}
+							ops = append(ops, "call "+exprStr(fset, sel)+"("+strings.Join(args, ",")+")")
+						}
+						return true
+					}
+				}
+				switch sel.Sel.Name {
+				case "Pick", "Run", "Close", "Reset", "Rebalance", "LoadBalance", "Wait", "SetNumLoops", "SetLoadBalance", "Trigger":
+					args := make([]string, len(x.Args))
+					for i, a := range x.Args {
+						args[i] = exprStr(fset, a)
+					}
+					ops = append(ops, "call "+exprStr(fset, sel)+"("+strings.Join(args, ",")+")")
+				}
+			}
+			if id, ok := x.Fun.(*ast.Ident); ok {
+				switch id.Name {
+				case "openPoll", "newLoadbalance", "newRoundRobinLB", "newRandomLB":
+					args := make([]string, len(x.Args))
+					for i, a := range x.Args {
+						args[i] = exprStr(fset, a)
+					}
+					ops = append(ops, "call "+id.Name+"("+strings.Join(args, ",")+")")
+				}
+			}
+		}
+		return true
+	})
+	return ops
 }
 
 func fdLeanStr(s string) string {
@@ -201,7 +299,7 @@ func main() {
 		fmt.Fprintln(os.Stderr, "load:", err)
 		os.Exit(2)
 	}
-	facts := Facts{Consts: map[string]string{}, Funcs: map[string]FuncFact{}}
+	facts := Facts{Consts: map[string]string{}, Funcs: map[string]FuncFact{}, Mgr: map[string][]string{}}
 	var dialLean string
 	var pollLean string
 	for _, p := range pkgs {
@@ -263,6 +361,11 @@ func main() {
 					(&printer.Config{Mode: printer.RawFormat}).Fprint(&b, token.NewFileSet(), &cp)
 					norm := strings.Join(strings.Fields(b.String()), " ")
 					h := sha256.Sum256([]byte(norm))
+					for _, mf := range mgrFuncs {
+						if prefix+name == mf {
+							facts.Mgr[mf] = mgrOps(p.Fset, p.TypesInfo, d.Body)
+						}
+					}
 					facts.Funcs[prefix+name] = FuncFact{
 						Hash: fmt.Sprintf("%x", h[:8]),
 						Sync: syncOps(p.Fset, p.TypesInfo, d.Body),
@@ -345,6 +448,25 @@ func main() {
 		}
 		b.WriteString("\nend Netpoll.Gen\n")
 		if err := os.WriteFile(filepath.Join(*out, "Consts.lean"), []byte(b.String()), 0o644); err != nil {
+			fmt.Fprintln(os.Stderr, err)
+			os.Exit(2)
+		}
+		// Gen/Manager.lean: step fingerprints of the poller-pool functions (a missing function gives [])
+		var mb strings.Builder
+		mb.WriteString("/- GENERATED by /verif/tools/extract from /repo on every check run.  Do not edit.\n" +
+			"   Ordered step fingerprints of the poller-pool functions (poll_manager.go, poll_loadbalance.go). -/\nnamespace Netpoll.Gen\n\n")
+		for _, mf := range mgrFuncs {
+			fmt.Fprintf(&mb, "def mgr_%s : List String := [", leanName(mf))
+			for i, o := range facts.Mgr[mf] {
+				if i > 0 {
+					mb.WriteString(",")
+				}
+				mb.WriteString("\n  " + fdLeanStr(o))
+			}
+			mb.WriteString("]\n\n")
+		}
+		mb.WriteString("end Netpoll.Gen\n")
+		if err := os.WriteFile(filepath.Join(*out, "Manager.lean"), []byte(mb.String()), 0o644); err != nil {
 			fmt.Fprintln(os.Stderr, err)
 			os.Exit(2)
 		}
